@@ -59,7 +59,7 @@ impl Property for C07CancelAll {
     type Case = ChanCase;
     fn part(&self) -> &'static str { "cancel-all-sched" }
     fn strategy(&self, _tier: Tier) -> BoxedStrategy<ChanCase> {
-        case_strategy(Gen { kinds: &ALL_KINDS, max_streams: &[1, 2, 4], buffers: &[2, 4, 8], max_producers: 2, max_ops: 3, max_consumers: 3, retry: false, fresh_wakers: true, prefill: true, canceller: true, ..Default::default() })
+        case_strategy(Gen { kinds: &ALL_KINDS, max_streams: &[1, 2, 4], buffers: &[2, 4, 8], max_producers: 2, max_ops: 3, max_consumers: 3, retry: false, fresh_wakers: true, prefill: true, canceller: true, drop_on_end: true, ..Default::default() })
     }
     fn cases(&self, tier: Tier) -> u32 { match tier { Tier::Quick => 6_000, Tier::Thorough => 120_000 } }
     fn run(&self, case: &ChanCase) -> RunReport {
